@@ -1,9 +1,152 @@
 (* C19 — node: remote events run once and return their result; peers cannot harm the loop.
-   Only statements here; proofs live in Proofs/NodeProtoP.v. *)
-From Coq Require Import List NArith ZArith.
+   Only statements here; proofs live in Proofs/NodeProtoP.v.  The model (Model/NodeProto.v) is the
+   code after fixes/C19_1..6; json.dumps / json.loads are oracles whose laws appear as premises. *)
+From Coq Require Import List NArith ZArith Bool.
 From Circ Require Import Model.NodeProto Proofs.NodeProtoP.
 Import ListNotations.
 
-Theorem C19_escape_no_delimiter_byte : forall s, ~ In TILDE (escape s).
+(* ---- framing: every cut of the stream of packets into reads yields exactly the packets sent, in
+   order, each once, nothing held back.  Premises = what is needed from the serialiser:
+   loads (text p) = p; the text contains no delimiter byte (dump_* escape '~', see C19_escape);
+   no proper prefix of a text parses; a text followed by part of the delimiter does not parse;
+   a proper prefix of the delimiter does not parse. *)
+Theorem C19_framing :
+  forall (P : Type) (parse : list N -> option P) (enc : P -> list N) (d0 : N) (dr : list N),
+  (forall p, parse (enc p) = Some p) ->
+  (forall p, ~ In d0 (enc p)) ->
+  (forall p q r, enc p = q ++ r -> r <> [] -> parse q = None) ->
+  (forall p t t', d0 :: dr = t ++ t' -> t <> [] -> t' <> [] -> parse (enc p ++ t) = None) ->
+  (forall t t', d0 :: dr = t ++ t' -> t' <> [] -> parse t = None) ->
+  forall (ps : list P) (chunks : list (list N)),
+    concat chunks = frames P (d0 :: dr) enc ps -> run P parse (d0 :: dr) [] chunks = (ps, []).
+Proof. exact framing. Qed.
+Print Assumptions C19_framing.
+
+Theorem C19_framing_cut_independent :
+  forall (P : Type) (parse : list N -> option P) (enc : P -> list N) (d0 : N) (dr : list N),
+  (forall p, parse (enc p) = Some p) ->
+  (forall p, ~ In d0 (enc p)) ->
+  (forall p q r, enc p = q ++ r -> r <> [] -> parse q = None) ->
+  (forall p t t', d0 :: dr = t ++ t' -> t <> [] -> t' <> [] -> parse (enc p ++ t) = None) ->
+  (forall t t', d0 :: dr = t ++ t' -> t' <> [] -> parse t = None) ->
+  forall ps cs1 cs2, concat cs1 = frames P (d0 :: dr) enc ps -> concat cs2 = frames P (d0 :: dr) enc ps ->
+    run P parse (d0 :: dr) [] cs1 = run P parse (d0 :: dr) [] cs2.
+Proof. exact framing_cut_independent. Qed.
+Print Assumptions C19_framing_cut_independent.
+
+(* the premises are satisfiable: a two-packet toy codec *)
+Example C19_framing_instance : forall ps cs,
+  concat cs = frames bool (Toy.d0 :: Toy.dr) Toy.enc ps ->
+  run bool Toy.parse (Toy.d0 :: Toy.dr) [] cs = (ps, []).
+Proof. exact Toy.toy_framing. Qed.
+Example C19_framing_run :
+  run bool Toy.parse [126; 126; 126]%N [] [[49; 126]%N; [126]%N; [126; 48]%N; []; [48; 126; 126; 126; 49]%N; [126; 126; 126]%N]
+  = ([true; false; true], []).
+Proof. vm_compute. reflexivity. Qed.
+
+(* the serialised text never contains a delimiter byte, whatever json.dumps returned *)
+Theorem C19_escape : forall s, ~ In TILDE (escape s).
 Proof. exact escape_no_tilde. Qed.
-Print Assumptions C19_escape_no_delimiter_byte.
+Print Assumptions C19_escape.
+
+(* ---- serialisation: load_event (dump_event e id) = e on name, args, kwargs, flags, channels, id;
+   attributes outside META_EXCLUDE (and not __x) are carried over, the others are dropped *)
+Theorem C19_serial : forall excl e id, wf_event e ->
+  load_event excl (event_data excl e id) =
+  Some ({| ename := ename e; eargs := eargs e; ekwargs := ekwargs e; esuccess := esuccess e;
+           efailure := efailure e; enotify := enotify e; echannels := echannels e;
+           eattrs := apply_meta excl (dump_meta_ev excl e) [] |}, id).
+Proof. exact serial. Qed.
+Print Assumptions C19_serial.
+
+Theorem C19_serial_attrs : forall excl e k, NoDup (map fst (eattrs e)) ->
+  get k (apply_meta excl (dump_meta_ev excl e) []) = if allowed excl k then get k (eattrs e) else None.
+Proof. exact serial_attrs. Qed.
+Print Assumptions C19_serial_attrs.
+
+Example C19_serial_ex : wf_event Ex.e0 /\ NoDup (map fst (eattrs Ex.e0)).
+Proof. exact Ex.e0_wf. Qed.
+
+(* ---- hostile metadata: for EVERY JSON value a peer sends as a call, the event handed to the
+   dispatcher has no attribute named in META_EXCLUDE or starting with "__", and hashable channels *)
+Theorem C19_meta_safe : forall excl data e id, load_event excl data = Some (e, id) ->
+  (forall k, allowed excl k = false -> get k (eattrs e) = None) /\ forallb hashable (echannels e) = true.
+Proof. exact load_event_safe. Qed.
+Print Assumptions C19_meta_safe.
+
+(* ... hence what _dispatcher/_eventDone read from it cannot make them raise (model: dispatch_safe) *)
+Theorem C19_loop_survives : forall excl data e id, load_event excl data = Some (e, id) ->
+  mem_str k_cause excl = true -> dispatch_safe e = true.
+Proof. exact load_event_dispatch_safe. Qed.
+Print Assumptions C19_loop_survives.
+
+(* the same for the metadata of a value packet, which is set on the sender's waiting event *)
+Theorem C19_value_meta_safe : forall excl o v id er meta, load_value excl o = LvOk v id er meta ->
+  forall k, allowed excl k = false -> get k meta = None.
+Proof. exact load_value_safe. Qed.
+Print Assumptions C19_value_meta_safe.
+
+(* ---- firewalls, for every predicate *)
+Theorem C19_firewall_recv : forall excl dumps D fw_recv handler b_chan j e id,
+  load_event excl j = Some (e, id) -> fw_recv e = false ->
+  dispatched (b_packet excl dumps D fw_recv handler b_chan j) = [].
+Proof. exact firewall_recv. Qed.
+Print Assumptions C19_firewall_recv.
+
+Theorem C19_firewall_send : forall excl dumps D fw_send s e, fw_send e = false ->
+  wab (a_send excl dumps D fw_send s e) = wab s /\ a_nid (a_send excl dumps D fw_send s e) = a_nid s
+  /\ a_pend (a_send excl dumps D fw_send s e) = a_pend s.
+Proof. exact firewall_send. Qed.
+Print Assumptions C19_firewall_send.
+
+(* ---- once: any packet dispatches at most one event; an honest call that passes the firewall and
+   has a handler is dispatched exactly once, as the event that was sent *)
+Theorem C19_at_most_once : forall excl dumps D fw_recv handler b_chan j,
+  length (dispatched (b_packet excl dumps D fw_recv handler b_chan j)) <= 1.
+Proof. exact dispatch_at_most_once. Qed.
+Print Assumptions C19_at_most_once.
+
+Theorem C19_once : forall excl dumps D fw_recv handler b_chan e id r, wf_event e ->
+  let e1 := {| ename := ename e; eargs := eargs e; ekwargs := ekwargs e; esuccess := esuccess e;
+               efailure := efailure e; enotify := enotify e; echannels := echannels e;
+               eattrs := apply_meta excl (dump_meta_ev excl e) [] |} in
+  let e2 := {| ename := ename e; eargs := eargs e; ekwargs := ekwargs e; esuccess := true;
+               efailure := efailure e; enotify := enotify e;
+               echannels := match echannels e with [] => [b_chan] | l => l end;
+               eattrs := apply_meta excl (dump_meta_ev excl e) [] |} in
+  is_miss (event_data excl e id) = false -> fw_recv e1 = true -> handler e2 = Some r ->
+  dispatched (b_packet excl dumps D fw_recv handler b_chan (event_data excl e id)) = [e2].
+Proof. exact dispatch_exactly_once. Qed.
+Print Assumptions C19_once.
+
+(* the answer carrying id [id] is stored in the waiting call registered under [id], and only there *)
+Theorem C19_result_routing : forall excl pend calls id i v er e,
+  zget id pend = Some i -> is_miss (value_data excl (JInt id) er v e) = false ->
+  a_packet excl pend calls (value_data excl (JInt id) er v e) =
+  (upd i (fun c => set_value c v er (filter (fun p => allowed excl (fst p)) (dump_meta excl e))) calls,
+   false, false).
+Proof. exact result_routing. Qed.
+Print Assumptions C19_result_routing.
+
+(* ids of the calls in flight are pairwise distinct after every schedule of sends, injected (hostile)
+   bytes and reads of any size *)
+Theorem C19_ids_unique : forall excl dumps loads D fw_send fw_recv handler b_chan ops,
+  NoDup (map fst (a_pend (exec excl dumps loads D fw_send fw_recv handler b_chan ops))).
+Proof. exact ids_unique. Qed.
+Print Assumptions C19_ids_unique.
+
+(* ---- end to end on one concrete exchange (non-vacuity of the protocol model): the call is cut at
+   byte 0..3, dispatched once, and its result reaches the sender *)
+Example C19_roundtrip_ex : forall cut, In cut [0; 1; 2; 3]%nat ->
+  map c_val (a_calls (Ex.final (fun _ => Some (Some Ex.result)) cut)) = [Ex.result]
+  /\ map c_fin (a_calls (Ex.final (fun _ => Some (Some Ex.result)) cut)) = [true]
+  /\ length (b_log (Ex.final (fun _ => Some (Some Ex.result)) cut)) = 1%nat.
+Proof. exact Ex.roundtrip. Qed.
+
+(* ---- open finding C19-remote-error-lost.  Full statement (does NOT hold):
+     "whenever the call is dispatched on the peer, the sender's call finishes (result or error flag)".
+   Witness: the handler raises. *)
+Theorem C19_error_flag_refuted : exists h cut,
+  length (b_log (Ex.final h cut)) = 1%nat /\ map c_fin (a_calls (Ex.final h cut)) = [false].
+Proof. exact Ex.error_lost_ex. Qed.
+Print Assumptions C19_error_flag_refuted.
